@@ -14,9 +14,13 @@ import (
 	"pgregory.net/rapid"
 
 	"verifharness/internal/vf"
+	"verifharness/internal/world"
 )
 
-func TestMain(m *testing.M) { vf.Main(m) }
+func TestMain(m *testing.M) {
+	world.Init()
+	vf.Main(m, world.Cleanup)
+}
 
 // Conv is a path convention.
 type Conv struct {
